@@ -4,6 +4,7 @@ import LdkModel.Generated.OnionFail
 import LdkModel.Generated.OnionPayloads
 import LdkModel.Model.OnionInstr
 import LdkModel.Generated.OnionBlinded
+import LdkModel.Model.OnionFwdInfo
 /- C14 driver: the model functions of Model/Onion.lean instantiated with ChaCha20 / HMAC-SHA256
    (`Onion.ldk`) and LDK's key derivations.  Ops (hex for bytes, `-` = empty):
      build <L|std> <prng-seed> <assoc-data> <n> (<shared-secret> <payload>)*   → <hop_data> <hmac> | err
@@ -37,6 +38,11 @@ import LdkModel.Generated.OnionBlinded
      instr blindedForward <enc> <bp|none> | instr blindedReceive <amt> <total> <cltv> <enc> <bp|none> <keysend|none> <invreq|none> <nt> (<type> <hex>)*
          → the serialized hop payload `HopInstr.encode` writes for these VALUES (decimal integers; generated constructors
            and generated value encodings: HighZeroBytesDroppedBigSize etc. are applied by the MODEL)
+     fwdblind <fwd|bfwd> <payload intro point|none> <update_add blinding point|none> <override (TLV 8)|none> <derived next point|none>
+         → none next=none | blinded <inbound point> <override|none> <intro|node> next=<outgoing blinding point|none>
+           (GENERATED fwdBlinded = create_fwd_pending_htlc_info's `blinded:` field, nextBlindingPoint = channelmanager's outgoing point)
+     fwdchain <first path key> <n> (<override|none> <derived|none>)*  → one `blinded …`/`none` per hop, `|`-separated, then final=<point handed to the recipient>
+           (relayBlinded: the generated per-hop functions chained over the forwarding hops of a (concatenated) blinded tail)
    The payload TLV pretty-printer below is presentation only (the model treats payloads as opaque
    length-framed byte strings). -/
 namespace Ldk.Driver
@@ -143,6 +149,10 @@ def showInstr (kind : InKind) (i : HopInstr) (showInv : Bool) : String :=
     s!"kind=blindedReceive amt={amt} cltv={cltv} total={total} keysend={optHex ks} invreq={inv} custom={showRecs custom}"
 
 def optBytes (s : String) : Option (List UInt8) := if s == "none" then none else some (unhex s)
+
+def showBlinded : Option BlindedForward → String
+  | none => "none"
+  | some b => s!"blinded {hex b.inbound_blinding_point} {match b.next_blinding_override with | none => "none" | some o => hex o} {match b.failure with | .fromIntroductionNode => "intro" | .fromBlindedNode => "node"}"
 
 def c14 : Drv where
   σ := Unit
@@ -265,6 +275,19 @@ def c14 : Drv where
       | .withinBlindedPath i => ((), s!"within {i}")
       | .plain (.attributed h c d) => ((), if showHop == "1" then showFail (.attributed h c d) else s!"attributed ? {c} {hex d}")
       | .plain d => ((), showFail d)
+    | ["fwdblind", kind, intro, msgbp, ovr, derived] =>
+      let h : Option FwdHop := if kind == "fwd" then some .forward else if kind == "bfwd" then some (.blindedForward (optBytes intro) (optBytes ovr)) else none
+      match h with
+      | none => ((), "bad-op")
+      | some h =>
+        let b := fwdBlinded h (optBytes msgbp)
+        let nx := match nextBlindingPoint (fun _ => optBytes derived) b with | none => "none" | some x => hex x
+        ((), s!"{showBlinded b} next={nx}")
+    | "fwdchain" :: e0 :: n :: rest =>
+      if rest.length ≠ 2 * nat! n then ((), "bad-op") else
+      let hops := (pairsOf rest).map fun (o, d) => ({ derive := fun _ => optBytes d, next_blinding_override := optBytes o } : BlindedHopSpec)
+      let fin := match relayFinalKey (some (unhex e0)) none hops with | none => "none" | some x => hex x
+      ((), " | ".intercalate ((relayBlinded (some (unhex e0)) none hops).map showBlinded) ++ s!" | final={fin}")
     | "faildecode" :: n :: rest =>
       if rest.length ≠ nat! n + 1 then ((), "bad-op") else
       let keys := (rest.take (nat! n)).map fun ss => failKeysOfSecret (unhex ss)
